@@ -143,7 +143,7 @@ CTX_DOCS = [
     ("list", ["- a\n- ", {"v": "a"}, "\n"]), ("quote-lazy", ["> a\n", {"v": "a"}, "\n"]), ("fence", ["```\n", {"v": "a"}, "\n```\n"]),
     ("code", ["a\n\n    ", {"v": "a"}, "\n"]), ("heading", ["# ", {"v": "a"}, "\n"]), ("setext", ["a\n", {"v": "a"}, "\n"]),
     ("refdef", ["[a]: /u\n", {"v": "a"}, "\n"]), ("refdef-title", ["[a]: /u '\n", {"v": "a"}, "'\n"]), ("html", ["<div>\n", {"v": "a"}, "\n"]),
-    ("olist", ["1. a\n", {"v": "a"}, ". b\n"]), ("loose", ["- a\n\n", {"v": "a"}, " b\n"]), ("blank-mid", ["a\n", {"v": "a"}, "\nb\n"]),
+    ("olist", ["1. a\n", {"v": "a"}, ". b\n"]), ("indented-later", ["a\n\n   ", {"v": "a"}, " b\n"]), ("indented-fence", ["a\n```\n ", {"v": "a"}, "\n```\n"]), ("loose", ["- a\n\n", {"v": "a"}, " b\n"]), ("blank-mid", ["a\n", {"v": "a"}, "\nb\n"]),
 ]
 MARKERS_QUICK = ["- ", "12)   "]
 MARKERS_ALL = ["- ", "*  ", "+   ", "-    ", "1. ", "9) ", "123.  ", "12)   ", "7.    "]
@@ -176,7 +176,8 @@ def jobs(tier, seed):
     for w in doubles:
         _sharded(jobs, {"cfg": CM, "scaffold": free_doc(2 if tier == "quick" else 3, "\n"), "wraps": w}, weight=8, spec=spec)
     for name, sc in CTX_DOCS:
-        for w in ([["quote"], ["list:- "]] if tier == "quick" else wrappers + doubles[:3]):
+        qw = [["quote"], ["list:- "]] + ([["list:-   "]] if name in ("setext", "heading", "indented-later") else [])
+        for w in (qw if tier == "quick" else wrappers + doubles[:3]):
             jobs.append({"harness": "law", "params": {"cfg": CM, "scaffold": sc, "wraps": w, "spec": spec, "name": name},
                          "weight": 3, "cpu_cap": 900, "wall_cap": 1500})
     return jobs
